@@ -497,3 +497,54 @@ Proof.
   intros C WF S R N. rewrite (read_frames tbl cfg st fs tail tm C WF), S. cbn zeta. rewrite R.
   destruct (r_sub_all st); [reflexivity|]. apply filter_loop_nonmsg. exact N.
 Qed.
+
+(* ---------------- statements used verbatim by Props/C08.v ---------------- *)
+Definition decode_error (o : outcome) : Prop :=
+  (exists h raw, o = OUnknown h raw) \/ o = ORaise EBadSize \/ o = ORaise EBadVersion.
+
+Lemma resync_next : forall tbl cfg cfg' st st' f g rest tail tm,
+  connected st = true -> connected st' = true -> wf_frame f -> wf_frame g -> Forall wf_frame rest ->
+  decode_error (classify tbl (sync_check cfg) f) ->
+  (exists h p, classify tbl (sync_check cfg') g = OMsg h p /\ passes cfg' st' (hdr_type h) = true) ->
+  let s0 := mkStream (encs (f :: g :: rest) ++ tail) tm in
+  let s1 := mkStream (encs (g :: rest) ++ tail) tm in
+  read tbl cfg st s0 = (classify tbl (sync_check cfg) f, st, s1) /\
+  read tbl cfg' st' s1 = (OMsg (fh g) (fp g), st', mkStream (encs rest ++ tail) tm).
+Proof.
+  intros tbl cfg cfg' st st' f g rest tail tm C C' Wf Wg Wr DE (h & p & CG & PG) s0 s1. split.
+  - unfold s0, s1. rewrite (read_frames tbl cfg st _ tail tm C (Forall_cons _ Wf (Forall_cons _ Wg Wr))).
+    cbn [spec_read]. destruct DE as [(h1 & r1 & E)|[E|E]]; rewrite E; reflexivity.
+  - unfold s1. rewrite (read_frames tbl cfg' st' _ tail tm C' (Forall_cons _ Wg Wr)). cbn [spec_read].
+    rewrite CG, PG. destruct (classify_msg _ _ _ _ _ CG) as [-> ->]. reflexivity.
+Qed.
+
+Lemma lost_partial_header : forall tbl cfg st fs b tm,
+  connected st = true -> Forall wf_frame fs -> spec_read tbl cfg st fs = None ->
+  (length b < Z.to_nat HEADER_SIZE)%nat -> (tm = Fin \/ (tm = Rst /\ b <> [])) ->
+  exists s', read tbl cfg st (mkStream (encs fs ++ b) tm) = (ORaise EConnLost, disconnected st, s').
+Proof.
+  intros tbl cfg st fs b tm C WF S H T.
+  assert (CL : closed tm = true) by (destruct T as [->|[-> _]]; reflexivity).
+  pose proof (raw_cut_header tbl cfg st b tm C CL H) as R.
+  destruct T as [->|[-> NE]].
+  - eexists. eapply read_frames_none; [exact C|exact WF|exact S| |intros; discriminate].
+    rewrite R. destruct b; reflexivity.
+  - destruct b as [|x b]; [congruence|]. eexists.
+    eapply read_frames_none; [exact C|exact WF|exact S|exact R|intros; discriminate].
+Qed.
+
+Lemma lost_partial_payload : forall tbl cfg st fs h pp tm,
+  connected st = true -> Forall wf_frame fs -> spec_read tbl cfg st fs = None ->
+  length h = Z.to_nat HEADER_SIZE -> Z.of_nat (length pp) < hdr_nbytes h ->
+  decodable tbl (sync_check cfg) h = true -> (tm = Fin \/ (tm = Rst /\ pp <> [])) ->
+  exists s', read tbl cfg st (mkStream (encs fs ++ h ++ pp) tm) = (ORaise EConnLost, disconnected st, s').
+Proof.
+  intros tbl cfg st fs h pp tm C WF S HL HN D T.
+  assert (CL : closed tm = true) by (destruct T as [->|[-> _]]; reflexivity).
+  pose proof (raw_cut_payload tbl cfg st h pp tm C CL HL HN) as R. rewrite D in R.
+  destruct T as [->|[-> NE]].
+  - eexists. eapply read_frames_none; [exact C|exact WF|exact S| |intros; discriminate].
+    rewrite R. destruct pp; reflexivity.
+  - destruct pp as [|x pp]; [congruence|]. eexists.
+    eapply read_frames_none; [exact C|exact WF|exact S|exact R|intros; discriminate].
+Qed.
